@@ -302,6 +302,9 @@ def rule_V(ck, lib):
 
 def rule_G(ck, lib):
     sk = skeleton.Skeleton(ck, lib)
+    # the meaning of the parser combinators the skeleton is built from, read from their own bodies
+    import primitives
+    primitives.check(ck, lib, sk, "C03-PR")
     HEX = frozenset(b"0123456789abcdefABCDEF")
     want = {"Hexadecimal": (frozenset(b"Hh"), HEX), "Binary": (frozenset(b"Bb"), frozenset(b"01")), "Octal": (frozenset(b"Qq"), frozenset(b"01234567"))}
     alnum = frozenset(b"0123456789abcdefghijklmnopqrstuvwxyzABCDEFGHIJKLMNOPQRSTUVWXYZ")
